@@ -661,3 +661,112 @@ def run(prog: Program, chk: Check) -> None:
     guard(chk, r04_j, prog, chk)
     guard(chk, r04_k, prog, chk)
     guard(chk, r04_l, prog, chk)
+    guard(chk, r04_m, prog, chk)
+
+
+# ------------------------------------------------------------------- R04.m
+def _sample_protocols():
+    """Protocol classes built by CPython's own typing machinery (the inputs of the model)."""
+    import collections.abc as CA
+    import typing
+
+    import typing_extensions as te
+
+    T = typing.TypeVar("T")
+    out = []
+    for P in (typing.Protocol, te.Protocol):
+        class HasFoo(P):
+            def foo(self) -> int: ...
+
+        class HasAttr(P):
+            x: int
+
+        class Both(HasFoo, P):
+            y: str
+
+            def bar(self) -> None: ...
+
+        class SizedFoo(CA.Sized, P):
+            def foo(self) -> int: ...
+
+        class IterFoo(CA.Iterable, P):  # type: ignore[type-arg]
+            def foo(self) -> int: ...
+
+        class HashableNamed(CA.Hashable, P):
+            name: str
+
+        class Gen(P[T]):  # type: ignore[valid-type,misc]
+            def get(self) -> T: ...  # type: ignore[valid-type]
+
+        class GenChild(Gen[int], P):  # type: ignore[valid-type,misc]
+            def put(self, x: int) -> None: ...
+
+        class Slotted(P):
+            __slots__ = ()
+
+            def foo(self) -> int: ...
+
+        out += [HasFoo, HasAttr, Both, SizedFoo, IterFoo, HashableNamed, Gen, GenChild, Slotted]
+    return out
+
+
+def r04_m(prog: Program, chk: Check) -> None:
+    import sys as _sys
+    import typing
+
+    import typing_extensions as te
+
+    from ..minterp import AssertionFailed, Interp, ModelError, PyRaise, Unsupported
+    from .annot_model import _is_typing_name
+
+    chk.rule(
+        "R04.m",
+        "the members of a runtime protocol as a finite model: checker._extract_protocol_members is interpreted from its AST on every class of the MRO of 18 protocol classes built "
+        "by CPython's typing / typing_extensions (methods, annotated attributes, a protocol extending another, protocols extending the collections.abc classes Sized / Iterable / "
+        "Hashable, generic protocols and their specialised children, __slots__); the union over the MRO - what TypeObject.protocol_members is built from - contains every member "
+        "CPython itself requires of an implementation (`__protocol_attrs__`, the set isinstance() checks for a runtime-checkable protocol); a member that is left out makes the "
+        "protocol accept classes whose objects are not members",
+        floor=2,
+    )
+    fn = prog.func("checker", "_extract_protocol_members")
+    excluded = None
+    for st in prog.module("checker").tree.body:
+        tgt = st.targets[0] if isinstance(st, ast.Assign) else getattr(st, "target", None)
+        if isinstance(tgt, ast.Name) and tgt.id == "EXCLUDED_PROTOCOL_MEMBERS" and isinstance(getattr(st, "value", None), ast.Set):
+            excluded = {e.value for e in st.value.elts if isinstance(e, ast.Constant)}  # type: ignore[union-attr]
+    if excluded is None:
+        raise AnchorError("EXCLUDED_PROTOCOL_MEMBERS is not a set display of the checker module")
+    funcs = {
+        "is_typing_name": lambda a: _is_typing_name(a[0], a[1]),
+        "safe_getattr": lambda a: getattr(a[0], a[1], a[2]) if len(a) > 2 else getattr(a[0], a[1]),
+        "safe_hasattr": lambda a: hasattr(a[0], a[1]),
+        "hasattr": lambda a: hasattr(a[0], a[1]),
+    }
+    missing, crashes = [], []
+    extra_seen: Set[str] = set()
+    n = 0
+    protos = _sample_protocols()
+    for cls in protos:
+        want = set(getattr(cls, "__protocol_attrs__", None) or te.get_protocol_members(cls))
+        got: Set[str] = set()
+        for base in cls.__mro__:
+            it = Interp({}, {}, (), funcs, None, {}, {}, {"EXCLUDED_PROTOCOL_MEMBERS": set(excluded), "sys": _sys, "__native_getattr__": True, "object": object})
+            try:
+                r = it.call_def(fn, [base], fn)
+            except Unsupported as u:
+                raise AnchorError(f"_extract_protocol_members cannot be modelled: {u}")
+            except (AssertionFailed, PyRaise, ModelError) as e:
+                crashes.append({"protocol": cls.__qualname__.split(".")[-1], "class of the MRO": getattr(base, "__name__", repr(base)), "error": str(e)})
+                continue
+            n += 1
+            got |= set(r)
+        d = {"protocol": f"{cls.__qualname__.split('.')[-1]}({', '.join(b.__name__ for b in cls.__bases__)})", "members CPython requires": sorted(want)}
+        if want - got:
+            missing.append({**d, "left out": sorted(want - got)})
+        extra_seen |= got - want
+    chk.model_evaluations += n
+    chk.analysed["protocol_member_model"] = {"protocols": len(protos), "classes": n, "members beyond CPython's (stricter, not unsound)": sorted(extra_seen)}
+    site = prog.site("checker", fn)
+    missing.sort(key=lambda d: len(repr(d)))
+    chk.ob("R04.m", "checker::_extract_protocol_members::every member CPython requires is a protocol member", not missing, site, f"{len(protos)} protocols, {len(missing)} with a required member left out" + (f"; smallest: {missing[0]}" if missing else ""), witness=missing[:5])
+    chk.ob("R04.m", "checker::_extract_protocol_members::no-crash", not crashes, site, f"{len(crashes)} crashes" + (f"; first: {crashes[0]}" if crashes else ""), witness=crashes[:3])
